@@ -56,3 +56,19 @@ def main(only=None):
             bad += 1
     print("selftest: %d case(s), %d unexpected" % (len(results), bad))
     return 1 if bad else 0
+
+
+def cases_for(pid):
+    """Seeded changes and quiet refactors that exercise property pid: [(label, check, status, detail)]."""
+    out = []
+    for meta in sorted(glob.glob(os.path.join(VERIF, "seeded", "*", "meta.json"))):
+        sd = os.path.dirname(meta)
+        m = json.load(open(meta))
+        props = m.get("detected_by_checks") or [m["property"]]
+        if pid in props:
+            out += run_case(os.path.join(sd, "patch.diff"), [pid], True, "seeded/" + os.path.basename(sd))
+    for meta in sorted(glob.glob(os.path.join(VERIF, "selftest", "quiet", "*.json"))):
+        m = json.load(open(meta))
+        if pid in m["checks"]:
+            out += run_case(meta[:-5] + ".diff", [pid], False, "quiet/" + os.path.basename(meta)[:-5])
+    return out
